@@ -71,7 +71,7 @@ impl Indexer {
 //@end
 
 // ---- Indexer::remove_batch: the reclaimer's sequence-guarded removal (one (hash, sequence) pair)
-//@region foyer-storage/src/engine/block/indexer.rs :: impl~^impl Indexer$/fn remove_batch name=remove_guarded start=/match shard\.entry\(hash\)/ end=/match shard\.entry\(hash\)/ rules=let-chain
+//@region foyer-storage/src/engine/block/indexer.rs :: impl~^impl Indexer$/fn remove_batch name=remove_guarded start=/match shard\.entry\(/ stmts=1 rules=let-chain
 //@head
     fn remove_guarded(&self, shard: &mut IndexerShard, hash: u64, sequence: Sequence, olds: &mut Vec<EntryAddress>)
         ensures
@@ -87,7 +87,7 @@ impl Indexer {
 //@end
 
 // ---- Indexer::insert_tombstone: delete = insert of a tombstone through the same guard
-//@region foyer-storage/src/engine/block/indexer.rs :: impl~^impl Indexer$/fn insert_tombstone name=insert_tombstone_inner start=/self\.insert_inner\(&mut shard, hash, Index::Tombstone\(sequence\)\)/ end=/self\.insert_inner\(&mut shard, hash, Index::Tombstone\(sequence\)\)/ sub=@&mut shard,@shard,@
+//@region foyer-storage/src/engine/block/indexer.rs :: impl~^impl Indexer$/fn insert_tombstone name=insert_tombstone_inner start=/self\.insert_inner\(/ stmts=99 sub=@&mut shard,@shard,@
 //@head
     fn insert_tombstone_inner(&self, shard: &mut IndexerShard, hash: u64, sequence: Sequence) -> (r: Option<EntryAddress>)
         ensures
@@ -98,7 +98,7 @@ impl Indexer {
 //@end
 
 // ---- Indexer::insert_batch: one address of a flushed batch
-//@region foyer-storage/src/engine/block/indexer.rs :: impl~^impl Indexer$/fn insert_batch name=insert_batch_one start=/if let Some\(old\) = self\.insert_inner/ end=/if let Some\(old\) = self\.insert_inner/ sub=@&mut shard,@shard,@
+//@region foyer-storage/src/engine/block/indexer.rs :: impl~^impl Indexer$/fn insert_batch name=insert_batch_one start=/if let Some\(old\) = self\.insert_inner/ stmts=1 sub=@&mut shard,@shard,@
 //@head
     fn insert_batch_one(&self, shard: &mut IndexerShard, haddr: HashedEntryAddress, olds: &mut Vec<HashedEntryAddress>)
         ensures
